@@ -210,7 +210,10 @@ async def _run_seq(backend, entries, ops):
         else:
             tmp = tempfile.mkdtemp(prefix="aioftp-verif-api-")
             make_disk(tmp, entries)
-            pio = aioftp.PathIO() if backend == "pathio" else aioftp.AsyncPathIO()
+            # "pathio+t" / "async+t": the same backends constructed with a (generous) timeout, as a server started with
+            # path_timeout= makes them - no timeout ever fires, nothing may differ
+            kw = {"timeout": 30} if backend.endswith("+t") else {}
+            pio = aioftp.PathIO(**kw) if backend.startswith("pathio") else aioftp.AsyncPathIO(**kw)
             root = pathlib.Path(tmp)
             tree = lambda: disk_tree(tmp)  # noqa
             with_errno = True
